@@ -246,10 +246,122 @@ pub fn run(out: &mut Out, tier: &str, seed: u64, corpus: Option<&str>, prop: &st
         let permissive = rng.chance(1, 2);
         emit(out, false, permissive, if permissive && rng.chance(1, 2) { Some(rng.below(1 << 20)) } else { None }, &b, "random_raw");
     }
+    if prop == "C19" {
+        // systematic sweep: every valid DXGI code x 5 alpha modes, every FourCC of the table and arbitrary ones, every mask row and one-bit perturbations of it
+        let alphas = [AlphaMode::Unknown, AlphaMode::Straight, AlphaMode::Premultiplied, AlphaMode::Opaque, AlphaMode::Custom];
+        for code in 0u32..=260 {
+            if let Ok(d) = DxgiFormat::try_from(code) {
+                for a in alphas {
+                    let h = Header::Dx10(Dx10Header::new_image(rng.range(1, 32) as u32, rng.range(1, 32) as u32, d).with_alpha_mode(a));
+                    let mut b = Vec::new(); h.write(&mut b).unwrap();
+                    emit(out, false, false, None, &b, "sweep_dxgi");
+                }
+            }
+        }
+        let mut ccs: Vec<u32> = vec![0x31545844, 0x32545844, 0x33545844, 0x34545844, 0x35545844, 0x42475852, 0x31495441, 0x55344342, 0x53344342, 0x32495441, 0x55354342, 0x53354342,
+                                     0x47424752, 0x42475247, 0x32595559, 0x59565955, 36, 110, 111, 112, 113, 114, 115, 116, 117, 35, 0];
+        for _ in 0..60 { ccs.push(boundary_u32(&mut rng)); }
+        for cc in ccs {
+            if cc == FourCC::DX10.0 { continue; }
+            let h = Header::Dx9(Dx9Header::new_image(rng.range(1, 32) as u32, rng.range(1, 32) as u32, FourCC(cc).into()));
+            let mut b = Vec::new(); h.write(&mut b).unwrap();
+            emit(out, false, false, None, &b, "sweep_fourcc");
+        }
+        for r in source_mask_rows() {
+            let m0 = mask_of(&r);
+            let mut variants = vec![m0.clone()];
+            for bit in 0..32 {
+                let mut m = m0.clone(); m.r_bit_mask ^= 1 << bit; variants.push(m);
+                let mut m = m0.clone(); m.a_bit_mask ^= 1 << bit; variants.push(m);
+                if bit < 20 && bit != 2 { let mut m = m0.clone(); m.flags = PixelFormatFlags::from_bits_retain(m.flags.bits() ^ (1 << bit)); variants.push(m); }
+            }
+            for bits in [RgbBitCount::Count8, RgbBitCount::Count16, RgbBitCount::Count24, RgbBitCount::Count32] { let mut m = m0.clone(); m.rgb_bit_count = bits; variants.push(m); }
+            for m in variants {
+                let h = Header::Dx9(Dx9Header::new_image(rng.range(1, 32) as u32, rng.range(1, 32) as u32, m.into()));
+                let mut b = Vec::new(); h.write(&mut b).unwrap();
+                emit(out, false, false, None, &b, "sweep_mask");
+            }
+        }
+        // per-format metadata observed through the public API (compared with the model's formulas)
+        for (fi, (f, _)) in FORMATS.iter().enumerate() {
+            let p = PixelInfo::from(*f);
+            out.case(19, &[fi as i128], &[p.bits_per_pixel() as i128, color_id(f.color()) as i128, channels_id(f.channels()) as i128, precision_id(f.precision()) as i128]);
+        }
+        dithering_oracle(out, &mut rng, thorough);
+    }
     // F6 classes are reachable through the public builders: exercise them so the known findings stay visible
     if prop == "C09" {
         roundtrip_oracle(out, &Header::Dx9(Dx9Header::new_image(4, 4, FourCC::DX10.into())), "Dx9Header::new_image(FourCC::DX10)");
         roundtrip_oracle(out, &Header::Dx10(Dx10Header::new_volume(4, 4, 2, DxgiFormat::R8_UNORM).with_array_size(2)), "Dx10Header::new_volume().with_array_size(2)");
         let _ = NonZeroU32::new(1);
+    }
+}
+
+/// C19 dithering clauses (implementation-only oracle): dithering acts only where advertised and requested.
+fn dithering_oracle(out: &mut Out, rng: &mut Rng, thorough: bool) {
+    let modes = [Dithering::None, Dithering::Color, Dithering::Alpha, Dithering::ColorAndAlpha];
+    for (fi, (format, name)) in FORMATS.iter().enumerate() {
+        let Some(sup) = format.encoding_support() else { continue; };
+        let independent_alpha = !name.starts_with("BC") && !name.starts_with("ASTC") || name.starts_with("BC2") || name.starts_with("BC3");
+        let n = if thorough { 12 } else { 2 };
+        for k in 0..n {
+            let (mut w, mut h) = (rng.range(1, 32) as u32, rng.range(1, 32) as u32);
+            if sup.size_multiple().is_some() { w = (w + 1) & !1; h = (h + 1) & !1; }
+            let color = *rng.pick(&[ColorFormat::RGBA_U8, ColorFormat::RGBA_U16, ColorFormat::RGBA_F32, ColorFormat::RGB_U8, ColorFormat::GRAYSCALE_F32, ColorFormat::ALPHA_U16]);
+            let bpp = color.bytes_per_pixel() as usize;
+            let mut data = vec![0u8; w as usize * h as usize * bpp];
+            // smooth gradients with small noise: values between quantisation levels, so that dithering has something to do
+            for (i, px) in data.chunks_mut(bpp).enumerate() {
+                let x = (i as u32 % w) as f32 / w as f32; let y = (i as u32 / w) as f32 / h as f32;
+                let vals = [x * 0.9 + 0.03, y * 0.8 + 0.1, (x + y) * 0.45 + 0.02, 0.2 + 0.7 * (1.0 - x) * y + (rng.below(100) as f32) * 0.0005];
+                let nch = color.channels.count() as usize;
+                for c in 0..nch {
+                    let v = if nch == 1 && color.channels == Channels::Alpha { vals[3] } else { vals[c] };
+                    match color.precision {
+                        Precision::U8 => px[c] = (v * 255.0) as u8,
+                        Precision::U16 => px[2 * c..2 * c + 2].copy_from_slice(&((v * 65535.0) as u16).to_ne_bytes()),
+                        Precision::F32 => px[4 * c..4 * c + 4].copy_from_slice(&v.to_ne_bytes()),
+                    }
+                }
+            }
+            let view = ImageView::new(&data, Size::new(w, h), color).unwrap();
+            let enc = |d: Dithering| -> Option<Vec<u8>> {
+                let mut o = EncodeOptions::default(); o.dithering = d; o.quality = CompressionQuality::Fast; o.parallel = k % 2 == 0;
+                let mut v = Vec::new(); encode(&mut v, view, *format, None, &o).ok().map(|_| v)
+            };
+            let outs: Vec<Option<Vec<u8>>> = modes.iter().map(|m| enc(*m)).collect();
+            let Some(base) = &outs[0] else { continue; };
+            let dec = |bytes: &Vec<u8>| -> Vec<f32> {
+                let mut raw = vec![0u8; w as usize * h as usize * 16];
+                let mut r = &bytes[..];
+                decode(&mut r, ImageViewMut::new(&mut raw, Size::new(w, h), ColorFormat::RGBA_F32).unwrap(), *format, &DecodeOptions::default()).unwrap();
+                raw.chunks(4).map(|c| f32::from_ne_bytes([c[0], c[1], c[2], c[3]])).collect()
+            };
+            let base_px = dec(base);
+            out.count("dither_cases");
+            for (mi, m) in modes.iter().enumerate().skip(1) {
+                let Some(o) = &outs[mi] else { println!("IMPL-VIOLATION encode fails only with dithering {m:?}: {name} {w}x{h}"); continue; };
+                if o.len() != base.len() { println!("IMPL-VIOLATION dithering changes the encoded length: {name} {w}x{h} {m:?}"); continue; }
+                // formats advertising no dithering for a channel group ignore the option for it
+                let eff = Dithering::new(m.color() && sup.dithering().color(), m.alpha() && sup.dithering().alpha());
+                if eff == Dithering::None && o != base { println!("IMPL-VIOLATION unadvertised dithering {m:?} changes the output of {name} {w}x{h} ({:?} input)", color); }
+                if independent_alpha {
+                    let is_bc = name.starts_with("BC");
+                    let (alpha_same, colour_same) = if is_bc {
+                        // BC2 / BC3 families: 16-byte blocks, bytes 0..8 hold alpha, bytes 8..16 the colour block
+                        (o.chunks(16).zip(base.chunks(16)).all(|(a, b)| a[..8] == b[..8]), o.chunks(16).zip(base.chunks(16)).all(|(a, b)| a[8..] == b[8..]))
+                    } else {
+                        let px = dec(o);
+                        (px.chunks(4).zip(base_px.chunks(4)).all(|(a, b)| a[3].to_bits() == b[3].to_bits()),
+                         px.chunks(4).zip(base_px.chunks(4)).all(|(a, b)| (0..3).all(|c| a[c].to_bits() == b[c].to_bits())))
+                    };
+                    // BC3 RXGB / NORMAL keep a colour channel in the "alpha" block: only the advertised groups are meaningful there
+                    let swizzled = *name == "BC3_UNORM_RXGB" || *name == "BC3_UNORM_NORMAL";
+                    if !m.alpha() && !alpha_same && !swizzled { println!("IMPL-VIOLATION colour-only dithering changes stored alpha: {name} {w}x{h} ({:?} input)", color); }
+                    if !m.color() && !colour_same && !swizzled { println!("IMPL-VIOLATION alpha-only dithering changes stored colour: {name} {w}x{h} ({:?} input)", color); }
+                }
+            }
+            let _ = fi;
+        }
     }
 }
